@@ -33,6 +33,16 @@ def streams_for(prop):
         S.append(dict(name="array-ops/arith", gen=ga.gen_arith, impl=ia.run, oracle=ra.check_case))
     elif prop == "C07":
         S.append(dict(name="array-ops/reduce", gen=ga.gen_reduce, impl=ia.run, oracle=ra.check_case))
+    elif prop in ("C06", "C05", "C04"):
+        import gen_index
+        if prop == "C06":
+            import gen_np
+            import impl_np
+            S.append(dict(name="np-semantics", gen=gen_np.gen_np, impl=impl_np.run, oracle=None))
+        if prop == "C04":
+            S.append(dict(name="array-ops/arith", gen=ga.gen_arith, impl=ia.run, oracle=ra.check_case))
+            S.append(dict(name="array-ops/reduce", gen=ga.gen_reduce, impl=ia.run, oracle=ra.check_case))
+        S.append(dict(name="index", gen=gen_index.gen_index, impl=ia.run, oracle=ra.check_case))
     elif prop == "C14":
         import gen_dims
         import ref_dims
@@ -46,6 +56,9 @@ PROPS = {
     "C01": dict(title="arithmetic by label"),
     "C07": dict(title="summing, casting, shares"),
     "C14": dict(title="dimension sets as ordered sets"),
+    "C04": dict(title="storage order independence"),
+    "C05": dict(title="assignment keeps dims, sums by label"),
+    "C06": dict(title="indexing by item labels"),
 }
 
 
@@ -133,7 +146,15 @@ def match_known_finding(prop, disagreement):
 
 
 def replay_known(kf):
-    return False
+    """replay the witness of a recorded (not repaired) finding on the implementation: is the
+    defective observation still there?"""
+    w = kf.get("witness")
+    if not w:
+        return False
+    ga, ia, ra = _array_streams()
+    runner = {"array": ia.run}.get(w.get("runner", "array"))
+    out = runner(w["lines"])
+    return bool(out) and out[-1] == w["defective_observation"]
 
 
 def replay(prop, path):
